@@ -24,7 +24,10 @@
         waiting, given up / expiring in the very loop turn in which the packet is processed -- entry still listed,
         future already cancelled --, completed earlier in each way, under validation; CanBePrefix parents; foreign
         implicit digests), then the packet is handed over awaited / as a task / as a task in the loop iteration in
-        which the lifetime timers fire.
+        which the lifetime timers fire;
+      * Nacks x handler tables (nack_scenario): Nacks in every reason form against Interest handlers attached at,
+        above, below and beside the nacked name, with and without somebody waiting for the nacked Interest: a Nack
+        never invokes a handler; judged by construction (no model, no classification by the implementation).
 """
 import asyncio
 import copy
@@ -58,6 +61,19 @@ RULE = ('(A) packet lists (types/lengths over all four var-number forms incl. no
         'Oracle there: reception returns normally, the waiting entries the packet addresses complete with it, nobody '
         'else is touched, entries ending in that turn end with Canceled / Timeout (or the packet), everybody still '
         'waiting completes with its own Data afterwards, nothing reaches the loop exception handler.  '
+        'Nacks x handler tables (everything known by construction, no model and no classification by the implementation '
+        'involved): LpPacket{[PitToken], Nack{reason}, [CongestionMark], Fragment{Interest}} with the reason in each of '
+        'the 19 forms of the shared Nack pool (element absent, 0, 1, 50, 100, 150, width boundaries up to 2^64-1, '
+        'non-shortest encodings of 0 / 50 / 150 / 255 / 65535) x nacked names of depth 1-3 x Interest handlers attached '
+        'at each single position relative to the nacked name (root, every proper prefix, the name, a longer name, a '
+        'sibling, elsewhere), at all of them, at the whole prefix chain, nowhere, random subsets x {nobody waits, the '
+        'application waits for exactly this Interest (the wire it sent comes back), somebody waits under another name} '
+        'x Interest shape (CanBePrefix, no lifetime, ApplicationParameters) x awaited / as a task.  Demanded: reception '
+        'returns normally, NO handler is invoked (handler-invoked-by-nack) and nothing is transmitted, the waiting '
+        'Interest ends with InterestNack carrying that reason, others are untouched; afterwards a genuine Interest for '
+        'the same name reaches exactly the longest attached prefix once and whoever still waits gets its Data.  Without a '
+        'model executable (translator abort) the Nacks the harness built itself are Nacks by construction for the other '
+        'oracles too (not what the implementation under test makes of them).  '
         'non-trivial = stream/packet of >= 4 bytes; distinct by (part, input) hash')
 ASSUMPTIONS = [
     'asyncio.StreamReader.readexactly consumes nothing until n bytes are buffered; tasks start in creation order '
@@ -940,12 +956,58 @@ T_LIFETIME = 1000       # ms, the T entries
 X_LIFETIME = 40         # ms, the X entries
 
 
-def classify_action(M, f, loop, typ, w):
-    """whom the packet addresses: the model's classification (the instrumented implementation without a model)"""
+def ref_nack(w):
+    """Independent strict reading (harness TLV walker, no library code) of a Nack the harness built itself:
+    LpPacket{headers, Nack{[NackReason]}, headers, Fragment{Interest}} -> (name components of the nacked Interest,
+    reason or None when the NackReason element is absent).  None when w is not of that shape."""
+    try:
+        t, a = TG.read_num(w, 0)
+        _, b = TG.read_num(w, a)
+        els = TG.tlv_walk(w[a + b:]) if t == 0x64 else None
+        if not els:
+            return None
+        nack = [p0 for t0, p0 in els if t0 == 0x320]
+        frag = [p0 for t0, p0 in els if t0 == 0x50]
+        if len(nack) != 1 or len(frag) != 1:
+            return None
+        rs = [p0 for t0, p0 in (TG.tlv_walk(nack[0]) or []) if t0 == 0x321]
+        reason = int.from_bytes(rs[0], 'big') if rs else None
+        t1, a1 = TG.read_num(frag[0], 0)
+        _, b1 = TG.read_num(frag[0], a1)
+        if t1 != 5:
+            return None
+        for t2, p2 in TG.tlv_walk(frag[0][a1 + b1:]) or []:
+            if t2 == 7:
+                return [G.tlv(ct, cv) for ct, cv in TG.tlv_walk(p2)], reason
+    except Exception:   # noqa
+        return None
+    return None
+
+
+BUILT_NACKS = ('valid.nack', 'valid.nack-noreason', 'table.nack', 'table.nack-noreason')
+
+
+def construction_action(origin, f, w):
+    """Without a model the instrumented implementation says whom a packet addresses -- except for the packets the
+    harness built itself as Nacks: those are Nacks by construction (a Nack never addresses an Interest handler),
+    whatever the implementation under test makes of them."""
+    if origin in BUILT_NACKS:
+        r = ref_nack(w)
+        if r is not None:
+            return [2, r[0], (0 if f.nd is None else f.nd) if r[1] is None else r[1]]
+    return None
+
+
+def classify_action(M, f, loop, typ, w, origin=''):
+    """whom the packet addresses: the model's classification (without a model: by construction for the Nacks the
+    harness built, the instrumented implementation otherwise)"""
     if M:
         a = M([4, f.ver, None if f.nd is None else [f.nd], typ, w])
         if not (is_err(a) and a[1] == 98):
             return a
+    a = construction_action(origin, f, w)
+    if a is not None:
+        return a
     ia = f.classify(loop, typ, w)
     return [ia[0] if isinstance(ia[0], int) else 0] + ia[1:]
 
@@ -1241,6 +1303,252 @@ def table_packets(ctx, idx):
             ('fragmented-data', 0x64, G.tlv(0x64, G.tlv(0x52, b'\x01') + G.tlv(0x50, data)))]
 
 
+# ---- Nacks x handler tables ---------------------------------------------------------------------------------
+# A network Nack returns an Interest the application SENT; it never addresses an Interest handler, whatever its
+# reason (absent, 0 = None, the usual 50/100/150, width boundaries, non-shortest encodings), whatever other LpPacket
+# headers travel with it, whoever is attached at, above, below or beside the nacked name, and whether or not anybody
+# is waiting for it.  Everything here is known by construction: no model and no classification by the implementation
+# under test is involved.
+NACK_HDRS = ('none', 'token', 'cmark', 'token+cmark')
+NACK_SHAPES = ('plain', 'cbp', 'nolife', 'params')
+NACK_PENDING = ('', 'W', 'U', 'WU', 'UW')
+NACK_NAMES = ('/nk', '/nk/a', '/nk/a/b')
+
+
+def reason_element(form):
+    """NackReason element for a form of harness/props/_pipeline.py NACK_FORMS (b'' = element absent)"""
+    if isinstance(form, (tuple, list)):
+        if form[0] == 'absent':
+            return b''
+        return G.tlv(0x0321, int(form[1]).to_bytes(form[2], 'big'))
+    n = 1 if form < 1 << 8 else 2 if form < 1 << 16 else 4 if form < 1 << 32 else 8
+    return G.tlv(0x0321, int(form).to_bytes(n, 'big'))
+
+
+def handler_positions(nN):
+    """name -> prefix, for every place a handler can sit relative to the nacked name nN"""
+    from ndn.encoding import Component
+    c = lambda x: bytes(Component.from_str(x))   # noqa
+    pos = {'root': []}
+    for i in range(1, len(nN)):
+        pos['p%d' % i] = nN[:i]
+    pos['N'] = list(nN)
+    pos['longer'] = list(nN) + [c('zz')]
+    pos['sibling'] = nN[:-1] + [c('sib')]
+    pos['other'] = [c('elsewhere')]
+    return pos
+
+
+def nack_scenario(ctx, front, loop, sp):
+    """sp: {'name', 'form', 'hdr', 'shape', 'handlers': [position...], 'pending': word over W (waits for the nacked
+    Interest) / U (another name), 'mode': 'await' | 'task'}"""
+    from harness.props import _pipeline as P
+    from ndn.encoding import make_interest, make_data, InterestParam, MetaInfo, Name
+    from ndn.types import InterestNack
+    ver = front.ver
+    site = f'appv{ver}._receive'
+    app = front.new_app()
+    nN = [bytes(c) for c in Name.from_str(sp['name'])]
+    nU = [bytes(c) for c in Name.from_str('/nk-unrelated/u')]
+    positions = handler_positions(nN)
+    form = tuple(sp['form']) if isinstance(sp['form'], (tuple, list)) else sp['form']
+    case = {'front': ver, 'nackfam': {k: (list(v) if isinstance(v, tuple) else v) for k, v in sp.items()}}
+    hits = {}
+    loop.errors.clear()
+
+    async def v2_ok(name, sig, context):
+        return front.mod.ValidResult.PASS
+
+    async def v1_ok(name, sig):
+        return True
+    for pname in sp['handlers']:
+        if pname not in positions or pname in hits:
+            continue
+        hits[pname] = []
+        if ver == 2:
+            def h(name, app_param, reply, context, pname=pname):
+                hits[pname].append([bytes(c) for c in name])
+            app.attach_handler(list(positions[pname]), h, v2_ok)
+        else:
+            def h(name, param, app_param, pname=pname):
+                hits[pname].append([bytes(c) for c in name])
+            app.set_interest_filter(list(positions[pname]), h, v1_ok)
+    shape = sp['shape']
+    kw = {'lifetime': 60000, 'can_be_prefix': shape == 'cbp'}
+    ap = b'p' if shape == 'params' else None
+    entries = []
+
+    def express(kind, nm, ap_):
+        async def go():
+            if ver == 2:
+                co = app.express(list(nm), v2_ok, ap_, nonce=len(entries) + 1, **kw)
+            else:
+                co = app.express_interest(list(nm), ap_, v1_ok, nonce=len(entries) + 1, **kw)
+            return loop.create_task(co)
+        n0 = len(app.face.sent)
+        t = loop.run_until_complete(go())
+        loop.settle()
+        entries.append({'kind': kind, 'task': t, 'name': list(nm),
+                        'wire': app.face.sent[n0] if len(app.face.sent) > n0 else None})
+    try:
+        for k in sp['pending']:
+            # (the application's own Interests carry no ApplicationParameters here: signing them is C05's business;
+            #  the `params` shape applies to a Nack returning an Interest nobody is waiting for)
+            express(k, nN if k == 'W' else nU, None)
+    except Exception as e:   # noqa
+        ctx.violation(site, f'history-raises:{exc_class(e)}', f'expressing the pending Interests raised {e!r}', case)
+        for e2 in entries:
+            e2['task'].cancel()
+        loop.settle()
+        retrieve([e2['task'] for e2 in entries])
+        loop.collect_errors()
+        loop.errors.clear()
+        return
+    mine = [e for e in entries if e['kind'] == 'W' and e['wire'] is not None]
+    if mine:
+        inter = bytes(mine[0]['wire'])          # the Interest this application sent comes back
+    else:
+        ip = InterestParam(nonce=0x0a0b0c0d, can_be_prefix=(shape == 'cbp'), lifetime=None if shape == 'nolife' else 4000)
+        inter = bytes(make_interest(list(nN), ip, ap))
+    hdr = sp['hdr']
+    w = G.tlv(0x64, (G.tlv(0x62, b'\x01\x02\x03\x04') if 'token' in hdr else b'')
+              + G.tlv(0x0320, reason_element(form))
+              + (G.tlv(0x0340, b'\x01') if 'cmark' in hdr else b'')
+              + G.tlv(0x50, inter))
+    case['wire'] = w
+    sent0 = len(app.face.sent)
+    before = [e['task'].done() for e in entries]
+
+    # -- the Nack arrives
+    exc = None
+    if sp['mode'] == 'await':
+        async def go_await():
+            try:
+                await app._receive(0x64, w)
+                return None
+            except Exception as e:   # noqa
+                return e
+        exc = loop.run_until_complete(go_await())
+        loop.settle()
+    else:
+        async def go_task():
+            return loop.create_task(app._receive(0x64, w))
+        rx = loop.run_until_complete(go_task())
+        loop.settle()
+        if not rx.done():
+            ctx.violation(site, 'reception-does-not-return', 'the reception task is still running at quiescence', case)
+            rx.cancel()
+            loop.settle()
+        elif not rx.cancelled():
+            exc = rx.exception()
+    if exc is not None:
+        ctx.violation(site, f'raises:{exc_class(exc)}:_on_nack', f'_receive raised {type(exc).__name__} ({str(exc)[:80]}) on a Nack', case)
+    # -- nobody's handler is invoked, nothing is transmitted
+    called = {k: v for k, v in hits.items() if v}
+    if called:
+        k = sorted(called)[0]
+        ctx.violation(site, 'handler-invoked-by-nack',
+                      f'a Nack (reason {form!r}) for {sp["name"]} invoked the Interest handler attached at '
+                      f'{"/" if not positions[k] else b"".join(positions[k]).hex()} ({k}); a Nack addresses no handler', case)
+    if len(app.face.sent) != sent0:
+        ctx.violation(site, 'nack-caused-transmission', f'{len(app.face.sent) - sent0} packet(s) sent in response to a Nack', case)
+    # -- whoever waits for the nacked Interest gets the Nack, nobody else is touched
+    want_reason = P.nack_reason_value(form)
+    for e, b4 in zip(entries, before):
+        t = e['task']
+        if mine and e is mine[0]:
+            ok = t.done() and not t.cancelled() and isinstance(t.exception(), InterestNack)
+            if ok:
+                r = t.exception().reason
+                absent = isinstance(form, tuple) and form[0] == 'absent'
+                ok = (r in (None, 0)) if absent else (r == want_reason)
+            if not ok:
+                got = 'pending' if not t.done() else ('cancelled' if t.cancelled() else repr(t.exception() or t.result()))
+                ctx.violation(site, 'pending-interest-not-completed',
+                              f'the Interest for {sp["name"]} that this Nack (reason {form!r}) returns ended as {got[:80]}', case)
+        elif e['kind'] == 'U' and t.done() and not b4:
+            ctx.violation(site, 'pending-interest-disturbed', 'an Interest under another name was completed by the Nack', case)
+    # -- aftermath: a genuine Interest for the same name reaches exactly the longest attached prefix, once;
+    #    whoever still waits completes with its own Data
+    for k in hits:
+        hits[k].clear()
+    iw = bytes(make_interest(list(nN), InterestParam(nonce=99, lifetime=4000)))
+    try:
+        loop.run_until_complete(app._receive(5, iw))
+        loop.settle()
+    except Exception as e:   # noqa
+        ctx.violation(site, f'aftermath-error:{exc_class(e)}', f'a genuine Interest after the Nack raised {e!r}', case)
+    att = [k for k in hits if k in ('root', 'N') or k.startswith('p')]
+    best = max(att, key=lambda k: len(positions[k])) if att else None
+    for k in hits:
+        if len(hits[k]) != (1 if k == best else 0):
+            ctx.violation(site, 'handler-lost' if k == best else 'handler-disturbed',
+                          f'after the Nack a genuine Interest for {sp["name"]} invoked the handler at {k} {len(hits[k])} time(s)', case)
+    for e in entries:
+        t = e['task']
+        if t.done():
+            continue
+        nm = e['name']
+        try:
+            loop.run_until_complete(app._receive(6, bytes(make_data(list(nm), MetaInfo(), b'after'))))
+            loop.settle()
+        except Exception:   # noqa
+            pass
+        ok = False
+        if t.done() and not t.cancelled() and t.exception() is None:
+            r = t.result()
+            content = r[1] if ver == 2 else r[2]
+            ok = content is not None and bytes(content) == b'after'
+        if not ok:
+            ctx.violation(site, 'pending-interest-lost', f'entry {e["kind"]} does not complete with its Data afterwards', case)
+    errs = loop.collect_errors()
+    loop.errors.clear()
+    if errs:
+        e = errs[0].get('exception')
+        ctx.violation(site, f'loop-error:{exc_class(e) if e is not None else "none"}',
+                      f'loop exception handler called: {errs[0].get("message")} {e!r}', case)
+    for e in entries:
+        if not e['task'].done():
+            e['task'].cancel()
+    loop.settle()
+    retrieve([e['task'] for e in entries])
+    loop.errors.clear()
+    fk = form[0] if isinstance(form, tuple) else ('zero' if form == 0 else 'value')
+    ctx.case(('n', ver, repr(sorted(case['nackfam'].items()))), True, case,
+             f'recv.v{ver}.nack-handlers.{fk}.{"waited" if mine else "unwaited"}')
+
+
+def nack_handler_family(ctx, fronts, loop):
+    """every reason form x every handler placement (single positions, all, the prefix chain) with the other dimensions
+    (name depth, Interest shape, other headers, pending table, hand-over) rotated in the quick tier and enumerated /
+    sampled more widely in the thorough tier"""
+    from harness.props import _pipeline as P
+    rng = ctx.rng
+    i = 0
+    for f in fronts:
+        for name in NACK_NAMES:
+            from ndn.encoding import Name
+            pos = list(handler_positions([bytes(c) for c in Name.from_str(name)]))
+            chain = [k for k in pos if k in ('root', 'N') or k.startswith('p')]
+            tables = [[k] for k in pos] + [list(pos), chain, []]
+            for _ in range(ctx.n(1, 6)):
+                tables.append(rng.sample(pos, rng.randint(2, len(pos) - 1)))
+            for form in P.NACK_FORMS:
+                for tb in tables:
+                    reps = ctx.n(1, 4)
+                    for _ in range(reps):
+                        i += 1
+                        sp = {'name': name, 'form': form, 'handlers': tb,
+                              'hdr': NACK_HDRS[i % 4] if reps == 1 else rng.choice(NACK_HDRS),
+                              'shape': NACK_SHAPES[(i // 4) % 4] if reps == 1 else rng.choice(NACK_SHAPES),
+                              'pending': NACK_PENDING[(i // 2) % 5] if reps == 1 else rng.choice(NACK_PENDING),
+                              'mode': ('await', 'task')[(i // 3) % 2] if reps == 1 else rng.choice(('await', 'task'))}
+                        nack_scenario(ctx, f, loop, sp)
+                        if i % 400 == 1:
+                            gc.collect()
+                            gc.freeze()
+
+
 def retrieve(tasks):
     """the harness is done with these tasks: an outcome nobody looked at (InterestCanceled of an Interest the harness
     itself cancelled ...) must not show up as "Task exception was never retrieved" in a LATER scenario on this loop"""
@@ -1303,8 +1611,9 @@ def part_receive(ctx, only=None):
                         continue
                     ma = norm_action(a, f.ver)
                 else:
-                    # no model: the instrumented implementation says whom the packet addresses
-                    a = [ia[0] if isinstance(ia[0], int) else 0] + ia[1:]
+                    # no model: the instrumented implementation says whom the packet addresses (the Nacks the
+                    # harness built itself are Nacks by construction)
+                    a = construction_action(origin, f, w) or ([ia[0] if isinstance(ia[0], int) else 0] + ia[1:])
                     ma = ia
                 if ma[0] == 1 and ia[0] == 1:
                     if ma != ia:
@@ -1325,23 +1634,30 @@ def part_receive(ctx, only=None):
 
         if only is not None:
             for typ, w, *tbl in only:
+                if typ == 'nackfam':
+                    for f in fronts:
+                        nack_scenario(ctx, f, loop, w)
+                    continue
+                origin = tbl[2] if len(tbl) > 2 and tbl[2] in BUILT_NACKS else 'replay'
                 if tbl and tbl[0]:
                     # a stored table scenario: the same state word and hand-over mode, both front-ends
                     for f in fronts:
-                        oracle_states(ctx, f, loop, 'replay', typ, w, classify_action(M, f, loop, typ, w), tbl[0], tbl[1])
+                        oracle_states(ctx, f, loop, origin, typ, w, classify_action(M, f, loop, typ, w, origin), tbl[0], tbl[1])
                     continue
                 for _ in range(8):          # several random states around the same packet
-                    one('replay', typ, w, True)
+                    one(origin, typ, w, True)
             return
         for typ, w in KNOWN_WITNESSES:
             one('corpus', typ, w, True)
+        # Nacks (every reason form) against handler tables around the nacked name
+        nack_handler_family(ctx, fronts, loop)
         # ordinary packets against every small state of the pending-Interest table (and sampled larger ones)
         for wi, word in enumerate(state_words(ctx)):
             pk = table_packets(ctx, wi)
             chosen = pk[:4:3] + rng.sample(pk[1:3] + pk[4:], 2) if not ctx.thorough or len(word) > 2 else pk
             for kind, typ, w in chosen:
                 for f in fronts:
-                    a = classify_action(M, f, loop, typ, w)
+                    a = classify_action(M, f, loop, typ, w, 'table.' + kind)
                     oracle_states(ctx, f, loop, 'table.' + kind, typ, w, a, word, rng.choice(['await', 'task']))
                     counter[0] += 1
                     if counter[0] % 400 == 1:
@@ -1403,8 +1719,10 @@ def replay(ctx, data):
         part_stream(ctx, only=[[tuple(e) for e in case['events']]])
     elif 'datagram' in case:
         part_udp(ctx, only=[case['datagram']])
+    elif 'nackfam' in case:
+        part_receive(ctx, only=[('nackfam', case['nackfam'])])
     elif 'wire' in case:
-        part_receive(ctx, only=[(case['typ'], case['wire'], case.get('table'), case.get('mode', 'task'))])
+        part_receive(ctx, only=[(case['typ'], case['wire'], case.get('table'), case.get('mode', 'task'), case.get('origin'))])
     else:
         ctx.notes.append('replay: unknown case shape; full run repeated')
         run(ctx)
